@@ -154,7 +154,18 @@ func (c LongCodec) Read(r *avro.ReadBuf, p unsafe.Pointer) error {
 		return err
 	}
 
-	*(*time.Time)(p) = time.Unix(0, l*c.mult).UTC()
+	// timestamp-millis and timestamp-micros reach far beyond the instants a
+	// count of nanoseconds in an int64 can hold
+	var t time.Time
+	switch c.mult {
+	case 1000:
+		t = time.UnixMicro(l)
+	case 1e6:
+		t = time.UnixMilli(l)
+	default:
+		t = time.Unix(0, l*c.mult)
+	}
+	*(*time.Time)(p) = t.UTC()
 	return nil
 }
 
